@@ -13,6 +13,7 @@ import re
 
 from .. import analysis
 from ..cfg import build_cfg
+from ..logic import known
 from ..symtext import Expander, effect_calls
 from ..astutil import truthiness_tests, atoms_at, value_cases, calls_in, call_name, where, kw
 from ..cfg import build_cfg, enclosing_handlers
@@ -29,6 +30,9 @@ DECIDED = [
     "TAB-3 every ValidationError is constructed with the rank documented for its IssueID; is_error/is_warning test the two labels",
     "ESC-1 the registered rules and the Validation driver cannot raise: no escaping raise site, indexed access guarded by non-emptiness, named lookups guarded by KeyError handlers, attributes exist on the inferred classes",
     "ACC-1 the unique-id rules thread one shared id map through the whole traversal",
+    "DUP-1 object_unique_names reports an object iff its key was met earlier in the same scan (the key set starts empty and every scanned object is recorded)",
+    "IDENT-2 Validation.__getitem__ selects the issues of an object by identity (an equal looking object elsewhere has its own issues)",
+    "RESET-1 (shared with C19) a Validation object that is run again starts from an empty issue list: the warnings reported are those of the current state",
     "WALK-2 run_validation validates the object, every Section below it and every Property of those Sections",
     "ORD-2 cardinality reports are exact over all order types (shared with C09)",
 ]
@@ -252,6 +256,20 @@ def run(prog, rep):
                                          witness="AttributeError while validating")
 
     acc1_rule(prog, rep, S)
+    dup1_rule(prog, rep)
+    # --------------------------------------------------------------- IDENT-2
+    rep.rule("IDENT-2", "Validation.__getitem__: every comparison of <issue>.obj with the key is `is` (odML == is a deep content comparison "
+                        "that ignores ids: two Properties with equal content in different Sections would share their issues)")
+    gi = prog.cls("Validation").methods.get("__getitem__")
+    if gi is None:
+        raise AnalysisError("Validation.__getitem__ vanished")
+    rep.saw_function(gi)
+    cmps = [n for h in private_closure(gi) for n in ast.walk(h.node) if isinstance(n, ast.Compare)
+            and any(isinstance(y, ast.Attribute) and y.attr == "obj" for y in ast.walk(n))]
+    rep.check(bool(cmps) and all(isinstance(o, (ast.Is, ast.IsNot)) for c in cmps for o in c.ops), "IDENT-2", "issues are looked up by identity",
+              "%d comparison(s) with `is`" % len(cmps), "Validation.__getitem__ compares <issue>.obj with %s"
+              % sorted(set(type(o).__name__ for c in cmps for o in c.ops)), gi.where,
+              witness="validation[prop] also returns the dependency warning of an equal Property in another Section")
 
     # ---------------------------------------------------------------- WALK-2
     rep.rule("WALK-2", "Validation.run_validation: validate(self.obj); unless the object is a Property: for every Section of "
@@ -301,7 +319,82 @@ def run(prog, rep):
 
     # ----------------------------------------------------------------- ORD-2
     cardinality_validation_rule(prog, rep)
+    from .c19 import reset1_rule
+    reset1_rule(prog, rep, "RESET-1")
     rep.assume("the documented rules table (odmlsa/tables.py VALIDATION_RULES) transcribes the validation docstrings")
+
+
+def dup1_rule(prog, rep):
+    """object_unique_names: the duplicate scan is a `seen set` scan."""
+    from ..logic import reach_feasible
+    from ..dataflow import reaching_defs, def_value, node_defs
+    rep.rule("DUP-1", "object_unique_names: every issue is yielded for the loop element on paths that know `<key of element> in S`, where the "
+                      "local S is an empty set when the scan starts, is changed in the loop only by S.add(<key of element>), and every "
+                      "completed iteration performs that add")
+    vmod = prog.module_of("validation")
+    f = vmod.functions.get("object_unique_names")
+    if f is None:
+        raise AnalysisError("validation.object_unique_names vanished")
+    rep.saw_function(f)
+    g = build_cfg(f)
+    x = Expander(f, g)
+    ynodes = [n for n in g.nodes if n.kind == "stmt" and isinstance(n.ast, ast.Expr) and isinstance(n.ast.value, (ast.Yield, ast.YieldFrom))]
+    rep.floor("DUP-1", len(ynodes), 1, "issues yielded by object_unique_names")
+    for yn in ynodes:
+        loops = [h for h in g.nodes if h.kind == "for" and g.dominates(h, yn) and any(isinstance(y, ast.AST) and y is yn.ast for y in ast.walk(h.ast))]
+        if not loops:
+            rep.fail("DUP-1", "object_unique_names|yield-outside-scan", "an issue is yielded outside the scanning loop", where(f, yn.ast))
+            continue
+        hd = loops[-1]
+        var = hd.ast.target.id if isinstance(hd.ast.target, ast.Name) else None
+        # the membership test that guards the yield
+        found = {}
+
+        def clf(lf, br, found=found):
+            if isinstance(lf, ast.Compare) and len(lf.ops) == 1 and isinstance(lf.ops[0], ast.In) and isinstance(lf.comparators[0], ast.Name) \
+                    and var is not None and any(isinstance(y, ast.Name) and y.id == var for y in ast.walk(lf.left)):
+                found[lf.comparators[0].id] = unparse(lf.left)
+                return "DUP:" + lf.comparators[0].id
+            return None
+        # discover candidate containers, then demand one that is known at the yield
+        for br in g.nodes:
+            if br.kind == "branch":
+                for lf in ast.walk(br.ast.test):
+                    clf(lf, br)
+        good = False
+        why = "no membership test `<key> in <local>` guards the report"
+        for coll, key in sorted(found.items()):
+            if not known(g, yn, lambda lf, br, coll=coll: "D" if clf(lf, br) == "DUP:" + coll else None, lambda a: a["D"], ["D"], with_node=True, start=hd):
+                continue
+            body_ids = set()
+            stack = [m for k, m in hd.succ if k == "iter"]
+            while stack:
+                m = stack.pop()
+                if m.id in body_ids or m.id == hd.id:
+                    continue
+                body_ids.add(m.id)
+                stack.extend(m2 for k, m2 in m.succ if k != "exc")
+            outer = [d for d in reaching_defs(g, hd, coll) if d.id not in body_ids]
+            empty = len(outer) == 1 and outer[0].kind != "entry" and _is_empty_set(def_value(outer[0], coll))
+            adds = [m for m in g.nodes if m.id in body_ids and m.kind == "stmt" and isinstance(m.ast, ast.Expr) and isinstance(m.ast.value, ast.Call)
+                    and isinstance(m.ast.value.func, ast.Attribute) and m.ast.value.func.attr in ("add", "append")
+                    and unparse(m.ast.value.func.value) == coll and len(m.ast.value.args) == 1 and unparse(m.ast.value.args[0]) == key]
+            other = [m for m in g.nodes if m.id in body_ids and coll in node_defs(m)]
+            every = bool(adds) and not reach_feasible(g, [m for k, m in hd.succ if k == "iter"], hd, stop_ids=set(m.id for m in adds))
+            if empty and every and not other:
+                good = True
+                why = "seen set %s, key %s" % (coll, key)
+                break
+            why = "`%s in %s` guards the report, but %s" % (key, coll, "the set does not start empty at the scan" if not empty else
+                                                          "not every scanned object is recorded in it" if not every else "it is re-bound inside the scan")
+        rep.check(good, "DUP-1", "object_unique_names reports repeated keys only", why,
+                  "the duplicate scan is not a seen-set scan: %s" % why, where(f, yn.ast),
+                  witness="siblings a, a, b: also the first `a` and the unique `b` are reported (or no duplicate at all)")
+
+
+def _is_empty_set(v):
+    return (isinstance(v, ast.Call) and isinstance(v.func, ast.Name) and v.func.id in ("set", "list", "dict") and not v.args and not v.keywords) or \
+        (isinstance(v, (ast.List, ast.Dict)) and not getattr(v, "elts", getattr(v, "keys", None)))
 
 
 def acc1_rule(prog, rep, S):
